@@ -8,6 +8,7 @@ safe_*, stress only; thorough: all 32 subsets). On the hooked release build the 
 pointer is compared with the rooted fiber after every snippet (H6 probe).
 """
 import json
+import os
 
 from .. import common
 from ..common import Check, mk_case, snip
@@ -93,6 +94,19 @@ def run(tier):
                     ck.inconclusive.append("watchdog fired for %s on %s but the hang did not reproduce" % (progs[i][0], cfg))
     ck.coverage["configurations"] = cfgs
     ref = cfgs[0]
+    # open known findings of this property: pinned programs on which the configurations are known to differ (each is the
+    # C10 face of a defect recorded for another property and kept out of the generated corpus by that entry's avoid tag)
+    for k in ck.findings.for_property("C10"):
+        if not k.get("witness", "").startswith("witness/known/"):
+            continue
+        w = json.load(open(os.path.join(common.VERIF, k["witness"])))
+        kc = mk_case("known", [tuple(x) for x in w["steps"]], {}, [tuple(m) for m in w.get("mods", [])])
+        views = [common.outcome_of(common.run_batch(c, [kc], shards=1, timeout=120)[0]) for c in cfgs]
+        ck.count("known_witnesses_replayed")
+        if any(v != views[0] for v in views[1:]):
+            ck.known(k.get("id"), k.get("text"))
+        else:
+            print("NOTE: known finding %s no longer reproduces on this tree (stale entry)" % k.get("id"), flush=True)
     for i, (name, src, mods, gl) in enumerate(progs):
         base = common.outcome_of(outs[ref][i])
         ck.evaluations += len(cfgs)
